@@ -474,6 +474,28 @@ pub fn gen_pair_conflict(rng: &mut Rng) -> Scenario {
     if force_t {
         eprintln!("TEMPLATE none (no mirror pairs)");
     }
+    if rng.chance(0.07) {
+        // two or three threads retire the same free dart (what kernels removing shared darts
+        // and the sweep of benches/cut_edges boil down to): exactly one of them may be told
+        // that the dart was still in use
+        let free: Vec<u32> = in_use.iter().copied().filter(|&d| init.is_free(d)).collect();
+        if !free.is_empty() {
+            let d = *rng.pick(&free);
+            let n_threads = 2 + usize::from(rng.chance(0.3));
+            let mut threads = vec![];
+            for t in 0..n_threads {
+                let mut ops = vec![Op::RemoveDartTx { d }];
+                if rng.chance(0.4) {
+                    let y = *rng.pick(&in_use);
+                    let extra = if rng.chance(0.5) { Op::WriteV { id: y, v: crate::state::b3([5.0 + t as f64, 0.25, 0.0]) } } else { Op::Beta { i: 1, d: y } };
+                    if rng.chance(0.5) { ops.push(extra) } else { ops.insert(0, extra) }
+                }
+                let runner = if rng.chance(0.3) { Runner::ControlRetry } else { Runner::WithErr };
+                threads.push(vec![Tx { runner, ops, f1: vec![], f2: vec![], f1_attempt: 0 }]);
+            }
+            return Scenario { init, order, threads, f2: vec![], pre: vec![] };
+        }
+    }
     let x = *rng.pick(&in_use);
     // the dart and its neighbourhood
     let mut hood = vec![x];
